@@ -140,9 +140,12 @@ def _alloc_size_poly(call, nm, rd, node_id):
     return None
 
 
-def rule_m4(prog, rep, units, rid='M4'):
+def rule_m4(prog, rep, units, rid='M4', exact=True):
+    """exact=True (C12, R2-len): allocation = copied length (+1).  exact=False (C11): the allocation only has to cover the
+    copy - a partial fill of a larger block is fine, sizes the rule cannot relate are listed as undecided."""
     rep.rule(rid, 'a block filled by memcpy/strcpy-family from its start was allocated with exactly the copied length '
-                  '(or length + 1 for a terminator)')
+                  '(or length + 1 for a terminator)' if exact else
+                  'a block filled by memcpy/strcpy-family from its start was allocated with at least the copied length')
     rds = {}
     skipped = []
     for f, n, call, nm in copy_calls(prog, units):
@@ -176,9 +179,23 @@ def rule_m4(prog, rep, units, rid='M4'):
         ln = poly_of(args[2], rd, n.id)
         if asz is None:
             continue
-        rep.instance(rid)
         diff = asz - ln
         dc = diff.as_const()
+        if not exact:
+            alt0 = Poly({tuple(a for a in m if a != 'sizeof(char)'): c for m, c in asz.t.items()})
+            dcs = [d for d in (dc, (alt0 - ln).as_const()) if d is not None]
+            if not dcs:
+                skipped.append('%s:%s %s: allocation %s and copy length %s are not comparable' % (f.relfile, call.get('_line'), f.name, asz, ln))
+                continue
+            rep.instance(rid)
+            ok = max(dcs) >= 0
+            rep.oblige(rid, ok, {'function': f.name, 'line': call.get('_line'), 'alloc': '%s(%s)' % (an, asz), 'copy_len': repr(ln)})
+            if not ok:
+                rep.violation(rid, f, call.get('_line'), '%s:%s' % (nm, canon(args[0])),
+                              '%s() copies %s bytes into a block allocated with %s bytes (%s at line %s): the copy is larger than '
+                              'the block' % (nm, ln, asz, an, rhs.get('_line')))
+            continue
+        rep.instance(rid)
         ok = dc is not None and dc in (0, 1)
         # sizeof(char) * (len + 1) style
         if not ok:
